@@ -634,6 +634,17 @@ def stepMapcar (f : Obj) (l1 : List Obj) (l2 : Option (List Obj)) (acc : List Ob
   | a :: l1, some (b :: l2) =>
     bindV (rec (.apply f [a, b]) σ) (fun v σ1 => rec (.mapcarLoop f l1 (some l2) (prim v :: acc)) σ1)
 
+/-- is the object a function designator that can be called (checked by mapcar before it looks at
+the lists, so that an empty list does not hide a bad designator) -/
+def callableCheck (σ : St) (f : Obj) : Option String :=
+  let named (name : String) : Option String :=
+    if (σ.funs.lookup name).isSome || (primOf name).isSome then none else some "undefined-function"
+  match f with
+  | .clo _ => none
+  | .fn name => named name
+  | .sym name => named name
+  | _ => some typeError
+
 /-- enter a loop form: implicit block `nil` around everything, implicit tagbody around the body -/
 def enterLoop (ρ : Env) (body : List Obj) (σ : St) : Env × Nat × Nat × St :=
   let (bid, σ1) := freshId σ
@@ -708,17 +719,19 @@ def stepForm (ρ : Env) (head : String) (a : List Obj) (σ : St) : Res :=
     bindV (rec (.args ρ [f, l]) σ) (fun vs σ1 =>
       match vs with
       | [fv, lv] =>
-        match listOf lv with
-        | some items => rec (.mapcarLoop fv items none []) σ1
-        | none => (.err typeError, σ1)
+        match callableCheck σ1 fv, listOf lv with
+        | some cls, _ => (.err cls, σ1)
+        | none, some items => rec (.mapcarLoop fv items none []) σ1
+        | none, none => (.err typeError, σ1)
       | _ => (.err programError, σ1))
   | .mapcar, [f, l, l2] =>
     bindV (rec (.args ρ [f, l, l2]) σ) (fun vs σ1 =>
       match vs with
       | [fv, lv, lv2] =>
-        match listOf lv, listOf lv2 with
-        | some items, some items2 => rec (.mapcarLoop fv items (some items2) []) σ1
-        | _, _ => (.err typeError, σ1)
+        match callableCheck σ1 fv, listOf lv, listOf lv2 with
+        | some cls, _, _ => (.err cls, σ1)
+        | none, some items, some items2 => rec (.mapcarLoop fv items (some items2) []) σ1
+        | none, _, _ => (.err typeError, σ1)
       | _ => (.err programError, σ1))
   | .defun, .sym name :: ps :: body =>
     match (listOf ps).bind symNames with
